@@ -1,6 +1,5 @@
-import TapkeeVerif.Model.Util
-import TapkeeVerif.Model.LocallyLinear
-import TapkeeVerif.Model.CertGen
+import Driver.Common0810
+import Driver.LLRun
 /-! Line-protocol driver for C08 (KLLE / KLTSA / HLLE).  One input line = the case fields followed by the
     implementation's observation fields (harness/c08_ll.cpp); one output line = the verdict:
 
@@ -11,227 +10,6 @@ import TapkeeVerif.Model.CertGen
     * `MODEL-ERR` : the model reaches an explicit error state (undefined behaviour in the source) on this input.
     The model runs at `K := Fix` (2⁻¹⁹² fixed point); comparisons use the declared tolerance `tolM = 2⁻³⁰`. -/
 open TapkeeVerif TapkeeVerif.Util TapkeeVerif.Cert TapkeeVerif.LocallyLinear
-
-abbrev E := Except String
-
-def need (fs : List (String × String)) (k : String) : E String :=
-  match field? fs k with
-  | some v => pure v
-  | none => throw s!"missing field {k}"
-
-def needNat (fs : List (String × String)) (k : String) : E Nat := do
-  match (← need fs k).toNat? with
-  | some v => pure v
-  | none => throw s!"bad nat {k}"
-
-def needFix (fs : List (String × String)) (k : String) : E Fix := do
-  match parseFix (← need fs k) with
-  | some v => pure v
-  | none => throw s!"bad number {k}"
-
-def needMat (fs : List (String × String)) (k : String) (n m : Nat) : E (Array (Array Fix)) := do
-  match parseRows parseFix (← need fs k) with
-  | some a => if rect a n m then pure a else throw s!"matrix {k} is not {n}x{m} (rows {a.size})"
-  | none => throw s!"bad matrix {k}"
-
-/-- per-sample objects separated by `|` -/
-def needSamples {α} (fs : List (String × String)) (k : String) (n : Nat) (p : String → Option α) : E (Array α) := do
-  let parts := (← need fs k).splitOn "|"
-  if parts.length ≠ n then throw s!"{k}: expected {n} samples, got {parts.length}"
-  match allSome (parts.map p) with
-  | some l => pure l.toArray
-  | none => throw s!"bad sample list {k}"
-
-def mkFin (N : Nat) (h : 0 < N) (v : Nat) : Fin N := ⟨v % N, Nat.mod_lt _ h⟩
-
-structure Nb (N : Nat) where
-  k : Nat
-  f : Fin N → Fin k → Fin N
-  raw : Array (Array Nat)
-
-def needNb (fs : List (String × String)) (key : String) (N : Nat) (hN : 0 < N) : E (Nb N) := do
-  match parseRows String.toNat? (← need fs key) with
-  | none => throw s!"bad neighbour lists {key}"
-  | some a =>
-    if a.size ≠ N then throw s!"{key}: {a.size} lists for {N} samples"
-    let k := (a[0]!).size
-    if !(a.all (·.size == k)) then throw "nonuniform"
-    if !(a.all (·.all (· < N))) then throw "neighbour-index-out-of-range"
-    pure { k := k, f := fun i c => mkFin N hN ((a[i.1]!)[c.1]!), raw := a }
-
-def tolM : Fix := tolPow 30      -- matrices, model vs implementation
-def tolS : Fix := tolPow 30      -- oracle contracts (residuals)
-def tolY : Fix := tolPow 26      -- orthonormality / residual of the returned embedding
-def tolC : Fix := tolPow 18      -- centring of the returned embedding (conditioned by the gap to the trivial eigenvalue)
-
-/-- distinct positions among the triplets = `nonZeros()` of the assembled sparse matrix -/
-def distinctPositions {N : Nat} (ts : List (Triplet N N Fix)) : Nat := Id.run do
-  let mut seen : Array Bool := Array.replicate (N * N) false
-  let mut c := 0
-  for t in ts do
-    let p := t.1.1 * N + t.2.1.1
-    if !(seen[p]!) then
-      seen := seen.set! p true
-      c := c + 1
-  return c
-
-/-- magnitude of the summands: the largest entry of the matrix assembled from `|value|` (cancellation-aware scale) -/
-def tripletScale {N : Nat} (ts : List (Triplet N N Fix)) : Fix :=
-  maxAbsArr (fromTripletsD (ts.map fun t => (t.1, t.2.1, fabs t.2.2))).data
-
-/-- smallest `‖c'‖² / ‖c‖²` met by the Gram–Schmidt loop (conditioning of the HLLE basis) -/
-def gsMinRatio {k : Nat} (cols : List (DVec k Fix)) : Fix := Id.run do
-  let mut done : List (DVec k Fix) := []
-  let mut worst : Fix := 1
-  for c in cols do
-    let c' := done.foldl gsSub c
-    let n0 := Mat.dot c.get c.get
-    let n1 := Mat.dot c'.get c'.get
-    let ratio := if n0.m = 0 then 0 else n1 / n0
-    if ratio < worst then worst := ratio
-    done := done ++ [gsOne Fix.sqrt done c]
-  return worst
-
-/-! ### oracle contracts -/
-
-/-- `G w = 1` within `tolS` (row-wise backward-error form); also `|Σw|` not negligible -/
-def lleContract {N : Nat} (κ : Mat N N Fix) (nb : Nb N) (tshift : Fix) (wraw : Array (Array Fix)) : Option String := Id.run do
-  let k := nb.k
-  for hi : i in [0:N] do
-    let ii : Fin N := ⟨i, hi.2.1⟩
-    let G := (lleSystemD κ ii (nb.f ii) tshift).get
-    let w : Vec k Fix := vecOf (wraw[i]!) k
-    for a in List.finRange k do
-      let mut s : Fix := 0
-      let mut sa : Fix := 0
-      for b in List.finRange k do
-        s := s + G a b * w b
-        sa := sa + fabs (G a b * w b)
-      if !(fabs (s - 1) ≤ tolS * (1 + sa)) then
-        return some s!"ldlt-solve-contract sample {i} row {a.1}"
-    let sw := sumFin k w
-    let swa := sumFin k fun a => fabs (w a)
-    if !(tolPow 20 * swa ≤ fabs sw) then return some s!"weights-sum-near-zero sample {i}"
-  return none
-
-inductive EigC where
-  | ok
-  | degenerate (i : Nat)
-  | bad (msg : String)
-
-/-- `U_i` = orthonormal eigenvectors of the model's centred local Gram matrix for its `d` largest eigenvalues -/
-def eigContract {N : Nat} (κ : Mat N N Fix) (nb : Nb N) (d : Nat) (rsk : Fix)
-    (U : Array (Array (Array Fix))) (ev : Array (Array Fix)) : EigC := Id.run do
-  let k := nb.k
-  if d > k then return .bad "d>k"
-  if !(fabs (rsk * rsk * (k : Fix) - 1) ≤ tolPow 40) then return .bad "rsk-contract"
-  for hi : i in [0:N] do
-    let ii : Fin N := ⟨i, hi.2.1⟩
-    let C := (localCenteredD κ (nb.f ii)).data
-    let Ui := U[i]!
-    let evi := ev[i]!
-    if !(rect Ui k d) || evi.size ≠ k then return .bad s!"oracle-shape sample {i}"
-    let cs := maxRowSum C
-    if cs.m = 0 then return .degenerate i
-    -- orthonormality
-    let Ut := transposeArr Ui k d
-    let G := mulArr Ut Ui d k d
-    if !((cmpArr 0 G (identArr d)).maxdev ≤ tolS) then return .bad s!"eigvec-orthonormality sample {i}"
-    -- residual
-    let CU := mulArr C Ui k k d
-    for a in [0:k] do
-      for c in [0:d] do
-        let lam := evi[k - d + c]!
-        if !(fabs ((CU[a]!)[c]! - lam * (Ui[a]!)[c]!) ≤ tolS * cs) then
-          return .bad s!"eigvec-residual sample {i}"
-    -- top-d: exactly d eigenvalues above the midpoint of the boundary gap
-    if d < k && 0 < d then
-      let hi_ := evi[k - d]!
-      let lo_ := evi[k - d - 1]!
-      if !(tolPow 12 * cs ≤ hi_ - lo_) then return .degenerate i
-      let σ := (hi_ + lo_) / (2 : Nat)
-      match countBelow k C none σ (tolPow 16 * cs) with
-      | none => return .bad s!"inertia-singular sample {i}"
-      | some c => if c ≠ k - d then return .bad s!"eigvecs-not-top-d sample {i}: {k - c} eigenvalues above the gap"
-  return .ok
-
-/-! ### certificate of the public-API result -/
-
-def certLine (c : CertOut) : String :=
-  s!"orth={c.orth} resid={c.resid} centre={c.centre} count={c.count} inertia={c.inertia}"
-
-/-- every list is a set of `k'` nearest others under the kernel distance (squared, exact) -/
-def knnContract {N : Nat} (κ : Mat N N Fix) (nb : Nb N) : Option String := Id.run do
-  for hi : i in [0:N] do
-    let ii : Fin N := ⟨i, hi.2.1⟩
-    let lst := nb.raw[i]!
-    if lst.contains i then return some s!"self-neighbour sample {i}"
-    if lst.toList.eraseDups.length ≠ lst.size then return some s!"duplicate-neighbour sample {i}"
-    let d2 (j : Fin N) : Fix := κ ii ii - (2 : Nat) * κ ii j + κ j j
-    let mut worstIn : Fix := 0
-    for c in List.finRange nb.k do
-      worstIn := fmax worstIn (d2 (nb.f ii c))
-    for j in List.finRange N do
-      if j.1 ≠ i && !(lst.contains j.1) then
-        -- the implementation orders by sqrt of the double-rounded value: allow a relative 2⁻⁴⁰ slack
-        if d2 j + tolPow 40 * fabs (d2 j) < worstIn then return some s!"not-k-nearest sample {i}: {j.1} is closer"
-  return none
-
-structure Common (N : Nat) where
-  κ : Mat N N Fix
-  κa : Array (Array Fix)
-
-def parse3 (s : String) : Option (Array (Array Fix)) := parseRows parseFix s
-
-def runModelLle {N : Nat} (hN : 0 < N) (fs : List (String × String)) (κ : Mat N N Fix) (nb : Nb N) :
-    E (Array (Array Fix) × Nat × Fix) := do
-  let shift ← needFix fs "shift"
-  let tshift ← needFix fs "tshift"
-  let wraw ← needSamples fs "wraw" N (parseVecA parseFix)
-  if !(wraw.all (·.size == nb.k)) then throw "wraw shape"
-  match lleContract κ nb tshift wraw with
-  | some e => throw ("CONTRACT:" ++ e)
-  | none => pure ()
-  let w : Fin N → Vec nb.k Fix := fun i => vecOf (wraw[i.1]!) nb.k
-  let M := lleMD nb.f w shift
-  let ts := lleTriplets nb.f w shift
-  pure (M.data, distinctPositions ts, tripletScale ts)
-
-def runModelEig {N : Nat} (hN : 0 < N) (fs : List (String × String)) (κ : Mat N N Fix) (nb : Nb N) (hlle : Bool) :
-    E (Array (Array Fix) × Nat × Fix) := do
-  let d ← needNat fs "d"
-  if hlle then
-    match hlleIndexErr d with
-    | some (.oob c cols) => throw s!"MODEL-ERR:oob:col={c}:cols={cols}"
-    | some (.uninit c) => throw s!"MODEL-ERR:uninit:col={c}"
-    | some (.clobber c) => throw s!"MODEL-ERR:clobber:col={c}"
-    | none => pure ()
-  let rsk ← needFix fs "rsk"
-  let U ← needSamples fs "U" N parse3
-  let ev ← needSamples fs "ev" N (parseVecA parseFix)
-  match eigContract κ nb d rsk U ev with
-  | .bad e => throw ("CONTRACT:" ++ e)
-  | .degenerate i => throw s!"SKIP:degenerate-local-spectrum sample {i}"
-  | .ok => pure ()
-  let Uf : Fin N → Mat nb.k d Fix := fun i => matOf (U[i.1]!) nb.k d
-  if hlle then
-    if nb.k < hlleCols d then throw s!"SKIP:k<{hlleCols d} (below the method's minimum)"
-    let thr : Fix := (1 : Fix) / (10000 : Nat)
-    for i in List.finRange N do
-      if gsMinRatio (hlleYi0 (Uf i)) < tolPow 32 then
-        throw s!"SKIP:ill-conditioned-hessian-basis sample {i.1}"
-    let ts := hlleTriplets nb.f Fix.sqrt thr Uf
-    match hlleMD nb.f Fix.sqrt thr Uf with
-    | .error _ => throw "MODEL-ERR:index"
-    | .ok M => pure (M.data, distinctPositions ts, tripletScale ts)
-  else
-    let shift ← needFix fs "shift"
-    let M := ltsaMD nb.f rsk Uf shift
-    let ts := ltsaTriplets nb.f rsk Uf shift
-    pure (M.data, distinctPositions ts, tripletScale ts)
-
-def describe (c : Cmp) : String :=
-  s!"dev={relDev c} at=({c.at_.1},{c.at_.2})"
 
 def answerCore (fs : List (String × String)) : E String := do
   let op ← need fs "op"
